@@ -47,6 +47,11 @@ func NewMirror(ctx context.Context, log *slog.Logger, opts ...Opt) (Mirror, erro
 	} else {
 		cfg.InitialHeight = e.genesis.InitialHeight
 		cfg.InitialValidatorSet = e.genesis.GenesisValidatorSet
+
+		// The mirror kernel panics on an empty initial validator set.
+		if len(cfg.InitialValidatorSet.Validators) == 0 {
+			err = errors.Join(err, errors.New("genesis validator set is empty (use tmengine.WithGenesis)"))
+		}
 	}
 
 	// Report rejected option values together with missing required options,
